@@ -5,6 +5,7 @@ import (
 	"errors"
 	"io"
 	"math/rand"
+	"strconv"
 	"sync"
 	"time"
 
@@ -35,9 +36,13 @@ type linkStat struct {
 	n     int
 	quar  bool
 	kinds []string
+	sigs  map[string]int
 }
 
-const spinBudget = 2000
+// spinBudget: how often the very same request (kind + position) may be
+// delivered on one link without virtual time advancing. A healthy catch-up
+// sends thousands of requests at one instant, but each with a new position.
+const spinBudget = 200
 
 func NewNet(w *World, seed int64) *Net {
 	return &Net{w: w, eps: map[raft.ServerAddress]*Trans{}, cut: map[[2]string]bool{}, rng: rand.New(rand.NewSource(seed)),
@@ -93,7 +98,7 @@ type fate struct {
 	failLatency                         time.Duration
 }
 
-func (n *Net) fate(from, to, kind string) fate {
+func (n *Net) fate(from, to, kind string, pos uint64) fate {
 	n.mu.Lock()
 	defer n.mu.Unlock()
 	var f fate
@@ -109,7 +114,12 @@ func (n *Net) fate(from, to, kind string) fate {
 		if len(ls.kinds) < 8 {
 			ls.kinds = append(ls.kinds, kind)
 		}
-		if ls.n > spinBudget && !ls.quar {
+		if ls.sigs == nil {
+			ls.sigs = map[string]int{}
+		}
+		sig := kind + "@" + strconv.FormatUint(pos, 10)
+		ls.sigs[sig]++
+		if ls.sigs[sig] > spinBudget && !ls.quar {
 			ls.quar = true
 			n.Spin++
 			pat := ""
@@ -119,7 +129,7 @@ func (n *Net) fate(from, to, kind string) fate {
 			n.w.Log(Ev{K: "spin", S: from, X: to, A: uint64(ls.n), Y: pat})
 		}
 	} else {
-		ls.at, ls.n, ls.kinds = now, 1, ls.kinds[:0]
+		ls.at, ls.n, ls.kinds, ls.sigs = now, 1, ls.kinds[:0], nil
 	}
 	f.failLatency = []time.Duration{time.Millisecond, 20 * time.Millisecond, 100 * time.Millisecond}[n.rng.Intn(3)]
 	if ls.quar {
@@ -380,7 +390,7 @@ func (t *Trans) call(target raft.ServerAddress, kind string, req interface{}, rd
 	if !t.disk.LogIfLive(t.ep, ev) {
 		return nil, errNet
 	}
-	f := t.net.fate(string(t.addr), string(target), kind)
+	f := t.net.fate(string(t.addr), string(target), kind, ev.C)
 	if f.quarantined || f.dropReq || t.net.isCut(string(t.addr), string(target)) {
 		t.net.w.Log(Ev{K: "r.drop", A: id, X: "req"})
 		time.Sleep(f.failLatency)
